@@ -98,7 +98,8 @@ structure CellSt where
   /-- `cell._problem` is the problem -/
   link : Bool := false
   /-- `cell.surfaces._problem` / `cell.complements._problem` is the problem (set by
-      `Cell.link_to_problem`, lost when `Cell.update_pointers` makes new containers) -/
+      `Cell.link_to_problem`; the containers that `Cell.update_pointers` makes inherit the cell's link:
+      repaired code) -/
   contLinked : Bool := false
   /-- `cell.old_mat_number`: the material number of the cell card as read (0 for a new `Cell()`) -/
   oldMat : Int := 0
@@ -490,9 +491,9 @@ structure PCell where
   /-- `fill=` of the cell card -/
   fill : Option Int
 
-/-- cell.py:Cell.update_pointers after reading: new unlinked containers, material by number, geometry. -/
+/-- cell.py:Cell.update_pointers after reading: material by number, new unlinked containers, geometry. -/
 def cellUpdatePointers (st : St) (c : ObjId) (pc : PCell) : Res :=
-  let st0 := st.updCell c (fun cs => { cs with surfs := [], comps := [], contLinked := false, oldMat := pc.mat })
+  let st0 := st.updCell c (fun cs => { cs with oldMat := pc.mat })
   let r : Res :=
     if pc.mat > 0 then
       match firstWith st0.mnum pc.mat st0.materials with
@@ -501,7 +502,7 @@ def cellUpdatePointers (st : St) (c : ObjId) (pc : PCell) : Res :=
     else (st0.updCell c (fun cs => { cs with mat := none }), none)
   match r with
   | (st1, none) =>
-    match updatePointersP c pc.geom st1 with
+    match updatePointersP c pc.geom (st1.updCell c (fun cs => { cs with surfs := [], comps := [], contLinked := cs.link })) with
     | ((st2, none), some g) => (st2.updCell c (fun cs => { cs with geom := some g }), none)
     | (res, _) => res
   | r => r
@@ -588,15 +589,15 @@ def load (st : St) (pcs : List PCell) (nSurf nMat nTrans : Nat) (nextU : ObjId) 
 def reupdateCells : List ObjId → St → Res
   | [], st => (st, none)
   | c :: t, st =>
-    let st0 := st.updCell c (fun cs => { cs with surfs := [], comps := [], contLinked := false })
     let r : Res :=
-      if (st0.cellOf c).oldMat > 0 then
-        match firstWith st0.mnum (st0.cellOf c).oldMat st0.materials with
-        | some m => (st0.updCell c (fun cs => { cs with mat := some m }), none)
-        | none => (st0, some .brokenLink)
-      else (st0.updCell c (fun cs => { cs with mat := none }), none)
+      if (st.cellOf c).oldMat > 0 then
+        match firstWith st.mnum (st.cellOf c).oldMat st.materials with
+        | some m => (st.updCell c (fun cs => { cs with mat := some m }), none)
+        | none => (st, some .brokenLink)
+      else (st.updCell c (fun cs => { cs with mat := none }), none)
     match r with
-    | (st1, none) =>
+    | (st0, none) =>
+      let st1 := st0.updCell c (fun cs => { cs with surfs := [], comps := [], contLinked := cs.link })
       match (st1.cellOf c).geom with
       | none => (st1, some .attributeError)
       | some g =>
